@@ -39,6 +39,10 @@ struct Case {
 	/// the step's own arguments ask for a fresh TTL (ttl_blocks = 5) on top of the incoming cutoff
 	#[serde(default)]
 	own_ttl: bool,
+	/// the blocks mined since the last full refresh have been observed through an output refresh
+	/// only (a fee estimate), which advances the height the wallet reports but scans nothing
+	#[serde(default)]
+	observed_by_estimate: bool,
 }
 
 #[derive(Clone, Debug, Serialize, Deserialize)]
@@ -127,6 +131,11 @@ fn run_case_inner(w: &World, c: &Case) -> Result<String, (String, String)> {
 	t.refresh().unwrap();
 	for _ in 0..c.stale {
 		w.mine("M").unwrap();
+	}
+	if c.observed_by_estimate {
+		let mut ea = default_args(1 * G);
+		ea.estimate_only = Some(true);
+		let _ = t.init_send(ea);
 	}
 	let h = t.with(|x| x.last_confirmed_height().unwrap());
 	let cutoff = match c.cut {
@@ -337,9 +346,12 @@ pub fn run(_args: &[String]) -> i32 {
 		for cut in [Cut::Zero, Cut::One, Cut::HMinus1, Cut::H, Cut::HPlus1, Cut::Max].iter() {
 			for stale in (if thorough { vec![0u64, 1, 2] } else { vec![0u64, 2] }).iter() {
 				for others in (if thorough { vec![0u32, 1, 2] } else { vec![0u32, 2] }).iter() {
-					cases.push(Case { step: *step, cut: *cut, stale: *stale, others: *others, own_ttl: false });
+					cases.push(Case { step: *step, cut: *cut, stale: *stale, others: *others, own_ttl: false, observed_by_estimate: false });
+					if *stale > 0 {
+						cases.push(Case { step: *step, cut: *cut, stale: *stale, others: *others, own_ttl: false, observed_by_estimate: true });
+					}
 					if *step == Step::ProcessInvoice {
-						cases.push(Case { step: *step, cut: *cut, stale: *stale, others: *others, own_ttl: true });
+						cases.push(Case { step: *step, cut: *cut, stale: *stale, others: *others, own_ttl: true, observed_by_estimate: false });
 					}
 				}
 			}
